@@ -110,6 +110,12 @@ impl TryFrom<&str> for OnionV3Address {
 	type Error = OnionV3Error;
 
 	fn try_from(input: &str) -> Result<Self, Self::Error> {
+		// neither form contains non-ASCII characters (and the hex decoder panics on them)
+		if !input.is_ascii() {
+			return Err(OnionV3Error::AddressDecoding(
+				"Input address contains non-ASCII characters".to_owned(),
+			));
+		}
 		// First attempt to decode a pubkey from hex
 		if let Ok(b) = from_hex(input) {
 			if b.len() == 32 {
